@@ -282,6 +282,25 @@ def request_to_qlink_1_0(
             probability_distribution_parameter_local_2=request.probability_dist_local2,
             probability_distribution_parameter_remote_2=request.probability_dist_remote2,
         )
+    elif request.type == RequestType.R:
+        assert isinstance(request, LinkLayerCreate)
+        return qlink_1_0.ReqRemoteStatePrep(
+            remote_node_id=request.remote_node_id,
+            minimum_fidelity=request.minimum_fidelity,
+            time_unit=request.time_unit,
+            max_time=request.max_time,
+            purpose_id=request.purpose_id,
+            number=request.number,
+            priority=request.priority,
+            atomic=request.atomic,
+            consecutive=request.consecutive,
+            random_basis_local=qlink_1_0.RandomBasis(request.random_basis_local.value),
+            x_rotation_angle_local_1=request.rotation_X_local1,
+            y_rotation_angle_local=request.rotation_Y_local,
+            x_rotation_angle_local_2=request.rotation_X_local2,
+            probability_distribution_parameter_local_1=request.probability_dist_local1,
+            probability_distribution_parameter_local_2=request.probability_dist_local2,
+        )
     elif request.type == RequestType.RECV:
         assert isinstance(request, LinkLayerRecv)
         return qlink_1_0.ReqReceive(
